@@ -87,6 +87,12 @@ class Engine:
             process_representation=self.coupling_process.model.process_representation,
         )
 
+    def _initialisation_seed(self) -> None:
+        """In the single process case the generators are seeded once per pricing, before anything is drawn (seeding at
+        every level and pass would generate the samples of all of them from the same variates)"""
+        if self.configuration.nb_of_processes == 1:
+            self.configuration.initialisation_seed()
+
     def compute_level_l(
         self,
         level: int,
@@ -119,8 +125,7 @@ class Engine:
         nb_of_processes = self.configuration.nb_of_processes
 
         if nb_of_processes == 1:
-            # single process version
-            self.configuration.initialisation_seed()
+            # single process version (the seed is set once, at the beginning of the pricing)
             for iteration in range(extra_mc_paths):
                 simulated_path = simulation_path()
                 path_manager.set_to_path(simulated_path)
@@ -161,6 +166,7 @@ class Engine:
         :param product: product to price
         :param rmse: root-mean square error
         """
+        self._initialisation_seed()
         self.initialisation(product)
 
         for path_manager in self.path_managers:
@@ -305,6 +311,7 @@ class Engine:
         """
         mc_paths = self.configuration.initial_mc_paths
         max_level = self.configuration.maximum_level
+        self._initialisation_seed()
         self.initialisation(product)
         for path_manager in self.path_managers:
             path_manager.update(
